@@ -502,12 +502,30 @@ func keys(m map[byte][]byte) []int {
 	return k
 }
 
+// dnsLabelsOfLen returns labels whose encoding (length bytes, labels, root) is exactly n bytes long (n >= 3).
+func dnsLabelsOfLen(n int) []string {
+	var labels []string
+	rest := n - 1
+	for rest > 64 {
+		l := 63
+		if rest-64 == 1 { // do not leave room for an empty label
+			l = 62
+		}
+		labels = append(labels, string(bytes.Repeat([]byte{'b'}, l)))
+		rest -= l + 1
+	}
+	return append(labels, string(bytes.Repeat([]byte{'c'}, rest-1)))
+}
+
 func (x *c03ctx) dnsQuery(id, flags uint16, labels []string, qtype uint16) {
 	ll0 := 0
 	if len(labels) > 0 {
 		ll0 = len(labels[0])
 	}
-	rp := c03Replay{Kind: "dns", Args: []int{int(id), int(flags), len(labels), int(qtype), ll0}}
+	x.dnsQueryRP(id, flags, labels, qtype, c03Replay{Kind: "dns", Args: []int{int(id), int(flags), len(labels), int(qtype), ll0}})
+}
+
+func (x *c03ctx) dnsQueryRP(id, flags uint16, labels []string, qtype uint16, rp c03Replay) {
 	x.try("DNSQuery", rp, func() {
 		name := ""
 		for i, l := range labels {
@@ -762,6 +780,11 @@ func c03Run(c *core.Ctx, args []string) {
 				}
 			}
 		}
+		// every encoded name length up to the 255 octet limit
+		for n := 3; n <= 255; n++ {
+			x.dnsQueryRP(0x1234, 0x0100, dnsLabelsOfLen(n), 1, c03Replay{Kind: "dnslen", Args: []int{n}})
+			x.dnsQueryRP(0xffff, 0, dnsLabelsOfLen(n), 0x21, c03Replay{Kind: "dnslen", Args: []int{n, 1}})
+		}
 	}
 	// composed frames
 	for _, sp := range portAlphabet {
@@ -863,6 +886,12 @@ func init() {
 					labels[i] = string(bytes.Repeat([]byte{'a'}, a[4]))
 				}
 				x.dnsQuery(uint16(a[0]), uint16(a[1]), labels, uint16(a[3]))
+			case "dnslen":
+				if len(a) > 1 {
+					x.dnsQueryRP(0xffff, 0, dnsLabelsOfLen(a[0]), 0x21, r)
+				} else {
+					x.dnsQueryRP(0x1234, 0x0100, dnsLabelsOfLen(a[0]), 1, r)
+				}
 			case "dhcp":
 				n := a[0]
 				idx := a[1 : 1+n]
